@@ -4,15 +4,15 @@
    had; globals keep their own name wherever they are used; the call lines of the script are the calls of the
    program in evaluation order (C04 theorems).
    Proved for functions whose body is a program of Sem/LoopPreserve.v (assignments, prints, conditionals, loops, calls of
-   earlier functions, simultaneous assignments, return at the end or inside if / else-if / else branches, or no return
-   for a function without results), and for the call statements
+   earlier functions, simultaneous assignments, return anywhere - at the end, inside if / else-if / else branches, inside
+   loops - or no return for a function without results), and for the call statements
    x = f(..), x := f(..), x, y = f(..), x, y := f(..), f(..) with call-free arguments: the simulation itself
    (C02_function_refines, C02_calls_refined, C02_calls_preserved) - arguments are bound to the parameters in order, the
    body sees the globals in place and its own frame, the caller's locals are unchanged whatever the names, all returned
    values reach the return registers and the variables of the call site in order, at any nesting depth of calls; a
    simultaneous assignment x, y = e1, e2 evaluates every right-hand side in the old environment (J rule j_assign_multi:
    the values are parked in _ma<i> before the first store).  NOT covered by a theorem: slices as arguments, calls as
-   arguments or operands, return inside a loop; these are decided on generated programs against Sem/Src.v, and the flat shell model
+   arguments or operands; these are decided on generated programs against Sem/Src.v, and the flat shell model
    with the script's functions as its call oracle is compared with /bin/bash on every such program it is defined on. *)
 From Verif Require Import Base.Bytestr Front.Ast Back.BashLines Back.Transpile Back.BashConv Back.NameFacts Back.BashFacts
   Sem.Src Sem.BashSem Sem.ExprPreserve Sem.StmtPreserve Sem.IfPreserve Sem.FlatLoop Sem.LoopPreserve Sem.CallPreserve.
@@ -49,8 +49,8 @@ Print Assumptions C02_call_lines_of_statement.
    call, which refines scall.  The caller: any code at state s with variables XS whose globals are the callee's globals,
    whose environment sg is represented by the shell environment b, which protects the flags from klo_c on and the mangled
    names from function number mlo_c on.  If the source runs the body from the frame  bind params vals (globals_of sg)  to
-   sgl printing o and ends it with  return e1, .., en  of values rvals - at the end of the body or inside if / else-if /
-   else branches - or, for a function without results, by reaching its end (ret_of), then the definition's lines - the local
+   sgl printing o and ends it with  return e1, .., en  of values rvals - at the end of the body, inside if / else-if /
+   else branches or inside loops - or, for a function without results, by reaching its end (ret_of), then the definition's lines - the local
    lines of the parameters, the body, the closing brace - run with the argument texts as positional parameters from b
    terminate printing o in an environment bF that represents  leave sg sgl  for the caller (globals as the function left
    them, the caller's own locals as they were), differs from b on nothing the caller protects, and holds the text of the
@@ -143,6 +143,16 @@ Example C02_early_return_and_no_result :
   (exists X b', b_code SimSamples.s_abs_end = b_code SimSamples.s_abs_main ++ X /\
      lruns (call_of SimSamples.script_abs 1) [] [] [] X (b', bs "v 8" ++ [10])).
 Proof. exact (conj SimSamples.abs_fun_ok (conj SimSamples.show_fun_ok (conj SimSamples.abs_sample_derivation SimSamples.abs_sample_applies))). Qed.
+
+(* func find(n int) int { for i := 0; i < 10; i++ { if i * i >= n { return i } }; return 0 - 1 }   r := find(10); print(r):
+   a return inside a loop ends the loop and the function. *)
+Example C02_return_inside_loop :
+  fun_ok SimSamples.script_find SimSamples.F_find /\
+  (exists sgF out, J (scall_at [SimSamples.F_find] 1 1 2) SimSamples.XS_find (Prog SimSamples.main_find) SimSamples.sg_empty sgF out SN /\
+                   out = bs "4" ++ [10]) /\
+  (exists X b', b_code SimSamples.s_find_end = b_code SimSamples.s_find_main ++ X /\
+     lruns (call_of SimSamples.script_find 1) [] [] [] X (b', bs "4" ++ [10])).
+Proof. exact (conj SimSamples.find_fun_ok (conj SimSamples.find_sample_derivation SimSamples.find_sample_applies)). Qed.
 
 Example C02_sample : mangled 1 (bs "x") = bs "f1_x" /\ mangled 12 (bs "_h3") = bs "f12__h3".
 Proof. vm_compute. split; reflexivity. Qed.
